@@ -131,14 +131,21 @@ def sliceB (inp : Inp) (rule : PairT) : R (Option Int × Option Int × Option In
         | [] => pure (a, b, none)
     | _ => err
 
-def sqSegsB (inp : Inp) (rule : PairT) : R (List SQSeg) :=
-  rule.inner.mapM fun r =>
+/-- `iter().map(f).collect::<Result<Vec<_>,_>>()` / a `for` loop with `?`: stops at the first error -/
+def mapR {α β} (f : α → R β) : List α → R (List β)
+  | [] => .ok []
+  | x :: xs => match f x with
+    | .ok y => (match mapR f xs with | .ok ys => .ok (y :: ys) | .error e => .error e)
+    | .error e => .error e
+
+def sqSegB (inp : Inp) (r : PairT) : R SQSeg :=
     match r.rule with
     | .r_name_segment =>
         let bad := match r.str inp with | '.' :: c :: _ => isBlank c | _ => false
         if bad then err else do let c ← firstInner r; pure (.name (trimBlank (c.str inp)))
     | .r_index_segment => do let c ← firstInner r; let v ← getIntB inp c; let v ← validateRange v; pure (.index v)
     | _ => err
+def sqSegsB (inp : Inp) (rule : PairT) : R (List SQSeg) := mapR (sqSegB inp) rule.inner
 
 def singularB (inp : Inp) (rule : PairT) : R Comparable := do
   let q ← firstInner rule
@@ -199,13 +206,6 @@ def tryNewFn (name : Str) (args : List FnArg) : R TestFunction :=
     | _ => err
   else if std.contains name then err
   else pure (.custom name args)
-
-/-- `iter().map(f).collect::<Result<Vec<_>,_>>()` / a `for` loop with `?`: stops at the first error -/
-def mapR {α β} (f : α → R β) : List α → R (List β)
-  | [] => .ok []
-  | x :: xs => match f x with
-    | .ok y => (match mapR f xs with | .ok ys => .ok (y :: ys) | .error e => .error e)
-    | .error e => .error e
 
 def isRule (id : RuleId) (p : PairT) : Bool := decide (p.rule = id)
 
